@@ -14,13 +14,13 @@ SPKI = drv("spki", ["props/spki.cpp"])
 IPCONV = drv("ipconv", ["props/ipconv.cpp"])
 ENUMNAMES = drv("enumnames", ["props/enumnames.cpp"])
 BGPSEC = drv("bgpsec", ["props/bgpsec.cpp"], deps=["model/rfc8205.hpp"])
-MGR = drv("mgr", ["props/mgr.cpp"], ldflags="-lrapidcheck -Wl,--wrap=rtr_start,--wrap=rtr_stop")
+MGR = drv("mgr", ["props/mgr.cpp"], ldflags="-lrapidcheck -Wl,--wrap=rtr_start,--wrap=rtr_stop,--wrap=lrtr_dbg")
 LOCKWRAPS = " -Wl,--wrap=pthread_rwlock_wrlock,--wrap=pthread_rwlock_rdlock,--wrap=pthread_rwlock_unlock"
 CONC = drv("conc", ["props/conc.cpp"], ldflags="-lrapidcheck" + LOCKWRAPS)
 CONC_TSAN = drv("conc_tsan", ["props/conc.cpp"], flavour="tsan", ldflags="-lrapidcheck" + LOCKWRAPS)
 ALLOCFAIL = drv("allocfail", ["props/allocfail.cpp"])
 WRAPS = " -Wl,--wrap=lrtr_get_monotonic_time,--wrap=sleep,--wrap=lrtr_dbg,--wrap=pthread_join"
-INTERVALS = drv("intervals", ["props/intervals.cpp"])
+INTERVALS = drv("intervals", ["props/intervals.cpp"], ldflags="-lrapidcheck -Wl,--wrap=lrtr_dbg")
 CONV_FUZZ = {"name": "conv_fuzz", "sources": ["props/conv_fuzz.cpp", "engine/convsim.cpp", "shim/shim.c"], "flavour": "fuzz", "libfuzzer": True,
              "ldflags": WRAPS + LOCKWRAPS,
              "deps": ["engine/convsim.hpp", "engine/convsim_model.inc", "engine/convsim_mock.inc", "engine/convsim_run.inc", "engine/judge.hpp",
